@@ -226,6 +226,17 @@ func checkSplitGuards(p *load.Program, r *kit.Report, ph *ssa.Function, g *phGua
 		_ = y
 		return true, b.Op == token.EQL
 	})
+	// only the tests on the known-parent path count (a shared helper expanded on the unknown-parent
+	// arm brings its own copy of the comparison)
+	{
+		var onPath []kit.Guard
+		for _, gd := range hg {
+			if d, _ := kit.DominatedByEdges(ph, gd.If, g.parentFound, nil, p.Pos); d {
+				onPath = append(onPath, gd)
+			}
+		}
+		hg = onPath
+	}
 	if badField == "" {
 		if len(hg) != 1 {
 			badField = "split.Height is not compared inside the refusal loop"
